@@ -293,9 +293,11 @@ pub fn softmax_class(x: &[f64]) -> &'static str {
     }
 }
 
-/// Class of a variance input: is the common offset large relative to the spread (|mean| >= 1e3 std)?
-pub fn offset_class(mean: f64, std: f64) -> &'static str {
-    if mean.abs() >= 1e3 * std && mean != 0.0 {
+/// Class of a variance input: is the common offset large relative to the spread
+/// (|mean| >= 1e3 std for f64, >= 1e2 std for f32)?
+pub fn offset_class<T: W>(mean: f64, std: f64) -> &'static str {
+    let k = if T::NAME == "f64" { 1e3 } else { 1e2 };
+    if mean.abs() >= k * std && mean != 0.0 {
         "large-offset"
     } else {
         "small-offset"
@@ -305,9 +307,15 @@ pub fn offset_class(mean: f64, std: f64) -> &'static str {
 // ------------------------------------------------------------------------------------------------
 // comparison helpers
 
+/// Development aid for calibration: C03_TOLSCALE=<x> multiplies every tolerance by x (default 1).
+pub fn tol_scale() -> f64 {
+    static S: std::sync::OnceLock<f64> = std::sync::OnceLock::new();
+    *S.get_or_init(|| std::env::var("C03_TOLSCALE").ok().and_then(|v| v.parse().ok()).unwrap_or(1.0))
+}
+
 #[inline]
 pub fn same(a: f64, b: f64, tol: f64) -> bool {
-    (a.is_nan() && b.is_nan()) || a == b || (a - b).abs() <= tol
+    (a.is_nan() && b.is_nan()) || a == b || (a - b).abs() <= tol * tol_scale()
 }
 
 pub struct Cx<'a> {
@@ -472,7 +480,8 @@ pub fn var_of(v: &[f64]) -> f64 {
 pub fn var_tol<T: W>(n: usize, mu: f64, var: f64) -> f64 {
     let std = var.sqrt();
     let n = n as f64;
-    if var > 0.0 && mu.abs() <= T::VAR_RMAX * std * 1.000001 {
+    tol_scale()
+        * if var > 0.0 && mu.abs() <= T::VAR_RMAX * std * 1.000001 {
         // accurate relative to the spread of the data (what a two-pass or Welford evaluation gives)
         T::VAR_ACC * var + (8.0 * n * T::EPS * mu.abs()).powi(2) + 16.0 * n * T::EPS * var
     } else {
@@ -531,13 +540,13 @@ pub fn check_softmax<T: W>(op: &str, what: &dyn Fn() -> String, x: &[f64], got: 
         return;
     }
     let s: f64 = got.iter().sum();
-    if (s - 1.0).abs() > 8.0 * n * T::EPS {
+    if (s - 1.0).abs() > 8.0 * n * T::EPS * tol_scale() {
         cx.fail("", format!("not a probability vector: entries sum to {:e} (result {:?})", s, got));
         return;
     }
     let want = softmax_ref(x);
     for k in 0..got.len() {
-        let tol = 4096.0 * T::EPS * want[k] + 8.0 * T::TINY;
+        let tol = (4096.0 * T::EPS * want[k] + 8.0 * T::TINY) * tol_scale();
         if (got[k] - want[k]).abs() > tol {
             cx.fail("", format!("entry {} is {:e}, expected {:e} (result {:?} expected {:?})", k, got[k], want[k], got, want));
             return;
